@@ -296,10 +296,21 @@ def probe_rodded(res, reg, dz, h_gap, t_gap, adiabatic, key, tdep,
                     reg._update_coolant_byp_params(act_byp)
                 sv.restore()
             deficit = (dz - lim_here) / dz
+            # property temperatures of this state outside the two
+            # evaluation temperatures (e.g. a starved bypass gap far hotter
+            # than the estimated mixed-mean outlet)
+            t_state = [t_int_mean] + list(act_byp) + (
+                list(act_duct) if reg._conv_approx else [])
+            beyond = bool(eval_temps) and (
+                max(t_state) > max(eval_temps) + 0.5 or
+                min(t_state) < min(eval_temps) - 0.5)
             if lim_ends and lim_here < dz <= min(lim_ends) + 1e-12 and \
-                    deficit < 0.02:
+                    (deficit < 0.02 or beyond):
                 k2['mech'] = 'limit_lower_at_actual_state_than_at_evaluation_temps'
             data_extra = {'limit_at_state': lim_here,
+                          'state_temps': t_state,
+                          'evaluation_temps': list(eval_temps or []),
+                          'state_beyond_evaluation_range': beyond,
                           'limit_at_evaluation_temps': lim_ends,
                           'limit_reported': limits, 'deficit': deficit}
         else:
@@ -456,7 +467,7 @@ def build_problem(case):
     if case['kind'] == 'asm':
         tdep = rng.random() < 0.3
         P, feats = wl.single_assembly(
-            rng, tdep=tdep, max_rings=5, length=0.25,
+            rng, coolant_pool=True, tdep=tdep, max_rings=5, length=0.25,
             vel=wl.loguniform(rng, 0.008, 6.0),
             lf=(rng.random() < 0.2), regions=(rng.random() < 0.3))
         t = P['types']['a']
@@ -505,7 +516,7 @@ def build_problem(case):
         # with a real temperature rise (limit differs inlet vs outlet)
         tdep = True
         P, feats = wl.single_assembly(
-            rng, tdep=True, max_rings=4, length=0.3,
+            rng, coolant_pool=True, tdep=True, max_rings=4, length=0.3,
             n_duct=int(wl.choose(rng, [2, 2, 3])),
             gap=wl.choose(rng, ['none', 'no_flow', 'duct_average', 'flow']),
             vel=wl.loguniform(rng, 0.3, 4.0), lf=False, regions=False,
@@ -535,7 +546,7 @@ def build_problem(case):
             byp = float(rng.uniform(0.4, 0.7))
             gapm = wl.choose(rng, ['none', 'duct_average'])
         P, feats = wl.single_assembly(
-            rng, tdep=True, max_rings=4, length=0.25, gap=gapm,
+            rng, coolant_pool=True, tdep=True, max_rings=4, length=0.25, gap=gapm,
             vel=wl.loguniform(rng, 0.005, 0.1), lf=False, regions=False,
             conv_approx=True, n_duct=nd, byp=byp, type_kw=tkw)
         feats['bundle_limited_design'] = tkw is not None
@@ -555,7 +566,7 @@ def build_problem(case):
     else:
         tdep = rng.random() < 0.3
         P, feats = wl.single_assembly(
-            rng, tdep=tdep, max_rings=5, length=0.4,
+            rng, coolant_pool=True, tdep=tdep, max_rings=5, length=0.4,
             vel=wl.loguniform(rng, 0.01, 5.0), lf=(rng.random() < 0.15),
             regions=(rng.random() < 0.3))
         feats['maxp'] = wl.choose(rng, ['zero', 'nonneg', 'bottom'])
